@@ -92,7 +92,13 @@ AuxCorruptSteps == ({0, 1, N(t) \div 2, N(t) - t.k - 1, N(t) - t.k, N(t) - t.k +
 AuxCorruptions == IF IOEnv.ST_SOUND = "1"
                   THEN SetToSeq({[c |-> c, i |-> i, violated |-> ViolatedAux(t, c, i)] : c \in AuxCorruptCols, i \in AuxCorruptSteps})
                   ELSE <<>>
-Emit == PrintT(ToJson([t |-> t, asserts |-> Asserts(t), corruptions |-> Corruptions,
+\* commit to a segment that is not the one the proof is about (the openings belong to another polynomial than the out-of-domain
+\* frame): the DEEP composition ties every column of both segments to the frame, so each of these must be rejected
+LdeCheats == IF IOEnv.ST_SOUND = "1"
+             THEN SetToSeq({[aux |-> FALSE, c |-> c, i |-> N(t) \div 2] : c \in {0, t.width - 1}}
+                           \cup {[aux |-> TRUE, c |-> c, i |-> 1] : c \in (IF AuxW(t) = 0 THEN {} ELSE {0, AuxW(t) - 1})})
+             ELSE <<>>
+Emit == PrintT(ToJson([t |-> t, asserts |-> Asserts(t), corruptions |-> Corruptions, ldecheats |-> LdeCheats,
                         auxasserts |-> AuxAsserts(t), auxcorruptions |-> AuxCorruptions,
                         ccols |-> NumCompositionCols(Effective(t)), layers |-> NumFriLayers(t),
                         layout |-> [u \in {1} |-> Layout(Effective(t), 1)][1]]))
